@@ -115,6 +115,9 @@ TABLE.update({
     "C20c": ("C20", "/tmp/seed2/C20/c", "final-tree mismatch errors wrap errLogSunset: a sunset log whose checkpoint differs from final_tree_head is reported read-only (200)", ["C20"]),
     "C20d": ("C20", "/tmp/seed2/C20/d", "witness/mirror verifier keys loaded once at start-up: rewriting or removing witness.v0.json / mirror.v0.json under the running server stays green", ["C20"]),
     "C20e": ("C20", "/tmp/seed2/C20/e", "right-edge verification cached per (directory, origin, tree): a tile damaged after one green probe goes unnoticed", ["C20"]),
+    # round 3 (changes in cmd/sunlight, the HTTP layer and the storage backends; /tmp/seed3/<prop>/{g,h})
+    "C06g": ("C06", "/tmp/seed3/C06/g", "Inception gate becomes strings.HasPrefix(today, inception): a missing/empty/year-month Inception makes every day the Inception day, so an instance on stores lacking the log creates a second log under the same key", ["C06"]),
+    "C06h": ("C06", "/tmp/seed3/C06/h", "lock-backend ambiguity check counts ETagS3 by its endpoint while the selection keys on the bucket: checkpoints + etags3 without endpoint silently runs on SQLite instead of refusing", ["C06"]),
 })
 
 
